@@ -52,6 +52,34 @@ def compare(rule, crate, sm, body, det, label=None, subst=None):
     for (ps, must, may, ln) in det.reports:
         spec_must[ps] = B.Or(spec_must.get(ps, B.F), must)
         spec_may[ps] = B.Or(spec_may.get(ps, B.F), may)
+    # bound element variables ([*#k]) are compared modulo a renaming: try the bijections between the code's and the spec's numbers
+    import itertools, re as _re
+    tag_re = _re.compile(r"\[\*#(\d+|\?)\]")
+
+    def tags_of(fs):
+        out = set()
+        for f in fs:
+            for a in B.atoms_of(f):
+                out |= set(tag_re.findall(a))
+        return sorted(out)
+    ctags = tags_of(code.values())
+    stags = tags_of(list(spec_must.values()) + list(spec_may.values()))
+    best = None
+    if ctags and len(ctags) == len(stags) and len(ctags) <= 5:
+        for perm in itertools.permutations(stags):
+            mp = dict(zip(ctags, perm))
+            ren = {ps: B.rename(f, lambda a: tag_re.sub(lambda m: "[*#%s]" % mp.get(m.group(1), m.group(1)), a)) for ps, f in code.items()}
+            score = 0
+            for ps in ren:
+                if ps in spec_must:
+                    score += int(B.implies(spec_must[ps], ren[ps])[0]) + int(B.implies(ren[ps], spec_may[ps])[0])
+            satoms = set()
+            for f in list(spec_must.values()) + list(spec_may.values()):
+                satoms |= set(B.atoms_of(f))
+            common = sum(len(set(B.atoms_of(f)) & satoms) for f in ren.values())
+            if best is None or (score, common) > best[0]:
+                best = ((score, common), ren)
+        code = best[1]
     for ps in sorted(set(code) | set(spec_must)):
         short = shorten(ps)
         if ps not in spec_must:
